@@ -694,10 +694,13 @@ func (rt *realTier) runStream(c cell, r *rand.Rand, engineNo int, doIdle bool) {
 			if err != nil {
 				return
 			}
-			if gr := <-greetCh; gr != nil {
-				x.Write(gr)
-			}
+			gr := <-greetCh
 			accCh <- x
+			if gr != nil {
+				// a greeting larger than the socket buffers is finished once the engine reads; the accept loop must
+				// not wait for that (the next connection may be the one whose registration lets the engine read)
+				go x.Write(gr)
+			}
 		}
 	}()
 	takeAcc := func() net.Conn {
